@@ -243,9 +243,10 @@ class WorkerCtx:
         for k, val in v.metrics.items():
             if val > st.metrics.get(k, -1.0):
                 st.metrics[k] = val
-        if len(st.samples) < 4 and (v.nontrivial or st.evaluations <= 2):
+        # samples: per worker the first case and up to three non-trivial ones, tagged; finish() shows non-trivial ones first
+        if (st.evaluations <= 1 and not st.samples) or (v.nontrivial and not v.rejected and sum(1 for x in st.samples if x["nontrivial"]) < 3):
             ab = getattr(self.mod, "abbreviate", None)
-            st.samples.append(ab(case) if ab else case)
+            st.samples.append({"nontrivial": bool(v.nontrivial and not v.rejected), "labels": sorted(set(v.labels))[:12], "case": ab(case) if ab else case})
         new = []
         for f in v.failures:
             e = match_known(self.known, f.bucket)
@@ -456,7 +457,16 @@ def finish(mod, tier, seed, total, wall, n_replays, n_enum, fuzz_info=None):
         inconclusive.append(
             f"only {total.evaluations} evaluations (< {min_eval}); {total.skipped_budget} skipped on wall budget"
         )
-    samples = total.samples[:8]
+    # non-trivial cases first, spread over the workers (every 4th entry of the concatenated per-worker lists), one trivial one kept
+    nt = [x for x in total.samples if x.get("nontrivial")]
+    tr = [x for x in total.samples if not x.get("nontrivial")]
+    samples, seen_s = [], set()
+    for x in nt[::4] + nt:
+        key = json.dumps(x, sort_keys=True, default=str)
+        if key not in seen_s and len(samples) < 7:
+            seen_s.add(key)
+            samples.append(x)
+    samples += tr[:1]
     ev = {
         "property_id": mod.ID,
         "tier": tier,
